@@ -234,6 +234,20 @@ theorem filter_incomplete_ticker :
 example : misses repaired 4 13 1 8 [116, 116, 97, 103, 103, 97, 99, 99, 99, 103, 103, 116, 116, 103, 99, 103, 116, 116, 99, 99] [97, 99, 99, 99, 103, 103, 99, 116, 103, 99, 103, 116, 116, 99, 116, 116, 103, 116, 97, 116, 103, 103, 99, 116, 103, 97, 103, 97] 5 0 = false ∧ misses repaired 4 4 0 2 [99, 97, 97, 99, 99] [97, 99, 97, 97, 99, 97, 97, 97, 99, 97] 0 1 = false := by
   decide +kernel
 
+/-- **the ticker repair is conservative inside the property's quantifier**: for a query over the
+    four-letter alphabet (every k-mer position has a callback) the model of the first wave's code —
+    the ticker a countdown of callbacks — and the model of the repaired code — the ticker following
+    the query position, rule regenerated from the source — return the same result of `Filter`,
+    errors included, for every index, parameters `e ≤ off`, `1 ≤ off` and both flags.  (With letters
+    outside the alphabet they differ: `filter_incomplete_ticker`.) -/
+theorem ticker_repair_conservative {lk : Lookup} (hlk : FourLetter lk) (ix : Biogo.Kmer.Index) (p : Params)
+    (q : List UInt8) (selfAlign complement : Bool)
+    (hk : 1 ≤ ix.k) (hk2 : 2 * ix.k ≤ Biogo.Kmer.wordBits) (hq : AllValid lk q) (hkq : ix.k ≤ q.length)
+    (he : p.maxError ≤ p.tubeOffset) (hoff : 1 ≤ p.tubeOffset) :
+    filter { Biogo.Generated.FilterFacts.rule with tickByPosition := false } lk ix p q selfAlign complement =
+      filter Biogo.Generated.FilterFacts.rule lk ix p q selfAlign complement :=
+  filter_countdown_eq hlk _ (by rw [rule_tie]; rfl) ix p q selfAlign complement hk hk2 hq hkq he hoff
+
 /-! ### non-vacuity of the complement statement -/
 
 /-- `misses` with both flags -/
